@@ -590,6 +590,7 @@ Section ObjCache.
   | RdCopy                              (* np.array(obj, copy=True) *)
   | RdConv (d cp : Z)                   (* np.array(obj, dtype=d, copy=None|True) *)
   | RdItem (i : Z)                      (* obj[i] *)
+  | RdAttr (k : Z)                      (* obj.max() (k = 0) / obj.min() (otherwise) *)
   | RdNop.                              (* requests that are not modelled *)
 
   Definition target (d : Z) : Z := if d =? 0 then nat_dt else d.
@@ -661,6 +662,11 @@ Section ObjCache.
     | RdCopy => Some data
     | RdConv d cp => Some (conv (target d) data)
     | RdItem i => match nth_error data (Z.to_nat i) with Some x => Some [x] | None => None end
+    | RdAttr k =>
+        match data with
+        | [] => None
+        | x :: l => Some [fold_left (if k =? 0 then Z.max else Z.min) l x]
+        end
     | _ => None
     end.
 
@@ -887,7 +893,8 @@ Definition dec_oop (t : Z * Z * Z * Z * list Z) : oop :=
   if tag =? 0 then
     ORead (if a =? 0 then RdAll else if a =? 1 then RdSlice b c
            else if a =? 2 then RdFancy idx else if a =? 3 then RdCopy
-           else if a =? 4 then RdConv b c else if a =? 5 then RdItem b else RdNop)
+           else if a =? 4 then RdConv b c else if a =? 5 then RdItem b
+           else if a =? 7 then RdAttr b else RdNop)
   else OMut (Z.to_nat a) b.
 
 Definition enc_oout (o : oout) : list Z :=
